@@ -28,7 +28,8 @@ for c in cs:
     rep = verify_function(uni, c)
     print(f"== {c.name}: paths={rep.paths} obls={len(rep.obligations)} "
           f"exits={rep.exits} unsupported={rep.unsupported} "
-          f"bounded={rep.bounded} gen={time.time()-t0:.1f}s")
+          f"bounded={rep.bounded} gen={time.time()-t0:.1f}s covered={sorted(rep.covered)} "
+          f"MISSING-COVER={[l for l,_,_ in c.covers if l not in rep.covered]}")
     if "--nosolve" in sys.argv:
         continue
     cache = {}
